@@ -1037,6 +1037,10 @@ def _decoded_native(b):
            'mtime': [e.get('mtime', 0), e.get('nanos', 0)]}
     if e.get('has_target'):
         ent['target'] = 't'
+    if e.get('naddr'):
+        U64 = (1 << 64) - 1
+        ent['addr_raw'] = {'present': bool(m.get('wblock_present', True)), 'class': 5, 'block_len': 10,
+                           'start': min(max(int(m.get('wstart', 0)), 0), U64), 'len': min(max(int(m.get('wlen', 0)), 0), U64)}
     sc = {'kind': 'restore_raw', 'restore_band': 0, 'raw_entries': True,
           'bands': [{'band': 0, 'closed': True, 'band_format_version': b.get('version', '0.6.3'), 'entries': [
               {'path': '/', 'kind': 'Dir', 'mode': 0o755, 'mtime': [1, 0]}, ent,
@@ -1171,7 +1175,7 @@ def check_C06(rep, prog, tier):
     from .harness import race as RC
     from .interp import parallel_explore
     dl = tier_deadline(tier, 480, 3000)
-    bound = 2 if tier == 'quick' else 3
+    bound = 2 if tier == 'quick' else 4
     rep.bounds = {'actors': ['backup of a tree containing a file whose content equals a garbage block', 'gc (delete_bands with no bands)'],
                   'granularity': 'control changes hands only immediately before a storage operation',
                   'preemption_bound': bound, 'who_starts': 'solver-chosen', 'sizes': 'symbolic'}
